@@ -57,9 +57,9 @@ CHECKS = {
  "C17": ("exploration", "bounded-exhaustive configuration/input product (E4) over real listener topologies with deterministic observation of routing",
          "All 16 sets of registered sub-listeners x native on/off x 13 client kinds run against the real InterceptingListener + SplitListener; the sub-listener that obtains a connection records its concrete type and negotiated protocol and answers with its name, so the client observes exactly where it was routed or that it was closed. A connection on any sub-listener but __UNAUTH__ must be node-authenticated; routing must follow the property's rule; types must be *tls.Conn unless native; after the base listener closes every sub-listener's Accept returns net.ErrClosed.",
          "Any matching specific sub-listener may win when several match. GetListener after close is not exercised.", "6/C17", "E4"),
- "C18": ("exploration", "stateless exhaustive schedule exploration (E2) of the real MultiplexingListener under a controlled scheduler with iterative preemption bounding; free-running -race companion",
-         "net/splitlistener.go is rebuilt with its mutexes, once, channel, select, context and go statements replaced by scheduler-owned shims that follow the Go runtime's algorithms; for each thread set (ingress, accept, close, parent cancel, listener feeder) every schedule with at most 2 (thorough 3) preemptions is executed, including both outcomes of every select with two ready cases; each execution must end without deadlock or panic, with every call returned and every connection returned by exactly one Accept xor closed, and no Accept started after a returned Close may hand out a connection.",
-         "Sequential consistency between synchronisation operations; shim fidelity (RWMutex writer preference, channel hand-off, close semantics) is trusted and self-tested; schedules beyond the preemption bound are not covered; data races are sampled by the -race companion.", "6/C18", "E2+R"),
+ "C18": ("exploration", "stateless exhaustive schedule exploration (E2) of the real MultiplexingListener under a controlled scheduler: preemption-bounded search without reduction plus unbounded search with sleep-set partial-order reduction; free-running -race companion",
+         "net/splitlistener.go is rebuilt with its mutexes, once, channel, select, context and go statements replaced by scheduler-owned shims that follow the Go runtime's algorithms; for each thread set (ingress, accept, close, parent cancel, listener feeder) every schedule with at most 2 (thorough 3) preemptions is executed without reduction, and all interleavings without a bound are executed up to sleep-set equivalence, including both outcomes of every select with two ready cases; each execution must end without deadlock or panic, with every call returned and every connection returned by exactly one Accept xor closed, and no Accept started after a returned Close may hand out a connection.",
+         "Sequential consistency between synchronisation operations; shim fidelity (RWMutex writer preference, channel hand-off, close semantics) is trusted and self-tested; the unbounded pass assumes data-race freedom between scheduling points (the bounded pass does not); data races are sampled by the -race companion.", "6/C18", "E2+R"),
  "C19": ("model_checking", "explicit-state BFS of the real back ends against a map model (E1) + exhaustive schedule exploration of the in-memory back end under a controlled scheduler with porcupine linearizability checking (E2)",
          "Sequential: every operation sequence over 4 types x 2 ids x 2 values (plus refused operations) up to the stated depth / fixpoint on inmem, file and store-once, with a full load+list comparison after every transition. Concurrent: all interleavings (no preemption bound) of 2x2 and 3x1 thread programs colliding on one slot, on the real inmem code with sync replaced by scheduler-owned shims; each history must be linearizable w.r.t. the map model.",
          "Scheduling points are lock operations only (sequential consistency between them); data-race freedom is reported by the free-running -race companion, which is sampling. Shim fidelity to sync.RWMutex semantics is part of the trusted base.", "6/C19", "E1+E2+R"),
